@@ -60,9 +60,23 @@ def apalache_readcounter(wd):
             "statement": "for all E >= 1, NG >= 0: Ok => reads = 2E-1+NG+(NG mod 2); matrix error => 2E-2; Gamma error => 2E-1"}
 
 
-def attribute(ev):
-    """which property does a rejected trace event speak about"""
+KIN_PROP = {"v": "C09", "jac": "C11", "mom": "C10", "shift": "C10"}
+
+
+def attribute(ev, run=None):
+    """which property does a rejected trace event speak about (run: the events of the call, Reset first)"""
     e = ev.get("ev")
+    if e == "Out" and run and run[0].get("kin"):
+        # the kinematic arguments that flow into the quantity are not those of its definition (Sample!KinMasses / KinShifts)
+        rs, name = run[0], ev.get("name")
+        ne = len(rs["g"]["edges"])
+        want_m = set(rs.get("margs", [])) if name in ("v", "jac", "mom") else set()
+        alle = set(range(1, ne + 1))
+        smin = alle if name in ("v", "jac", "mom") else (set(rs.get("loopedges", [])) if name == "shift" else set())
+        smax = alle if name == "shift" else smin
+        got_s = set(ev.get("shifts", []))
+        if set(ev.get("masses", [])) != want_m or not (smin <= got_s <= smax):
+            return KIN_PROP.get(name, "C14")
     if e == "Read":
         # an edge-choice coordinate (it carries its lattice value): the choice made does not fit the exact cumulative sums
         if ev.get("uden", 0) != 0 and not ev.get("narrow"):
@@ -195,7 +209,7 @@ def run(prop, tier, seed, replay=None):
         tp = os.path.join(wd, "replay.ndjson")
         core.mt("replay-flow", src, os.path.join(wd, "replay_sum.json"), rp.get("seed", seed), {"trace": tp})
         acc, rej, st, gn = validate(tp, wd, "replay")
-        mine = [r for r in rej if attribute(r["event"]) == prop]
+        mine = [r for r in rej if attribute(r["event"], r.get("run")) == prop]
         print(("VIOLATION property=%s replay=%s" % (prop, replay)) if mine else ("OK property=%s (replay)" % prop))
         return 1 if mine else 0
     r, consts = mc_sample(prop, tier, wd)
@@ -211,7 +225,7 @@ def run(prop, tier, seed, replay=None):
     violations = list(s.get("violations", []))
     other = {}
     for x in rej:
-        p = attribute(x["event"])
+        p = attribute(x["event"], x.get("run"))
         v = {"property": p, "what": "recorded execution is not a behaviour of the Sample specification: first unmatched event %s"
              % json.dumps(x["event"])[:300], "instance": {"run": x["run"]}, "detail": {"event": x["event"], "line": x["line"]}}
         violations.append(v)
